@@ -110,3 +110,16 @@ Definition date_parse (s : bytes) : option Z :=
 
 Definition date_lo : Z := -9214560000.   (* 1678-01-01 00:00:00 *)
 Definition date_hi : Z := 9214646399.    (* 2261-12-31 23:59:59 *)
+
+(* ---- reading the preferred HTTP form (RFC 7231 IMF-fixdate, "Sun, 06 Nov 1994 08:49:37 GMT", 29 bytes): the same strict
+   reader, the text brought to the canonical shape first (date::from_stream reads a fraction of a second when there is
+   one and any zone abbreviation) ---- *)
+Definition gmt_text : bytes := list_of_string " GMT".
+Definition time8 (r : Z) : bytes := two (r / 3600) ++ [":"%char] ++ two (r / 60 mod 60) ++ [":"%char] ++ two (r mod 60).
+Definition imf_write (s : Z) : bytes := day_text (s / 86400) ++ [c_sp] ++ time8 (s mod 86400) ++ gmt_text.
+Definition imf_parse (s : bytes) : option Z :=
+  if Nat.eqb (length s) 29 && bytes_eqb (sub s 25 4) gmt_text
+  then date_parse (firstn 25 s ++ frac_text ++ zone_text) else None.
+(* what Header::Date does with a text: either form *)
+Definition date_read (s : bytes) : option Z :=
+  match date_parse s with Some z => Some z | None => imf_parse s end.
